@@ -119,6 +119,38 @@ PROP_FUNCS: dict[str, list] = {
 }
 
 
+# functions of other modules a property's model leans on (its oracles' callers, its inputs' producers)
+_BOX = _f(COORD, "StandardCoordinates", "check_bounds", "at_bounds", "all_bounds", "active_bounds", "move_to_bounds")
+_ATOMS = _f(COORD, "AtomicCoordinates", "same_bonds", "remove_atom_clashes", "check_atom_clashes", "get_connected_atoms") + \
+    _f(COORD, "MolecularCoordinates", "remove_atom_clashes")
+_MSIM = _f(MSIM, MS, "test_same", "optimal_alignment", "test_exact_same", "align", "permutational_alignment",
+           "rotational_alignment", "centre", "closest_distance")
+_PERTS = _f(PERT, "StandardPerturbation", "perturb", "set_step_sizes") + _f(PERT, "AtomicPerturbation", "perturb") + \
+    _f(PERT, "MolecularPerturbation", "perturb")
+_PRUNE = _f(MINP, None, "get_invalid_minima", "get_all_bounds_minima", "get_bounds_minima", "get_similar_minima")
+_DEPENDS = {
+    "C01": _HEF_RUN + _f(HEF, H, "get_smallest_eigenvector") + _BH + _BOX + _PRUNE +
+           _f(NEB, N, "run", "find_ts_candidates", "minimise_interpolation", "initial_interpolation"),
+    "C02": _PRUNE,
+    "C03": _MSIM,
+    "C04": _BOX,
+    "C07": _ATOMS + _PERTS + _f(SIM, SS, "test_new_minimum", "is_new_minimum") + _f(MSIM, MS, "centre"),
+    "C08": _ATOMS + _PERTS + _f(SIM, SS, "test_new_minimum", "is_new_minimum") + _f(MSIM, MS, "centre"),
+    "C11": _f(EXPL, NS, "prepare_connection_attempt"),
+    "C14": _PERTS + _f(MSIM, MS, "optimal_alignment", "align", "permutational_alignment", "rotational_alignment",
+                       "random_rotation", "generate_pairs", "get_permutable_groups") +
+           _f(PAIRS, None, "closest_enumeration", "connect_to_set", "connect_unconnected", "unique_pairs"),
+    "C15": _f(HEF, H, "run") + _BOX,
+    "C17": _f(MINP, None, "get_minima_above_cutoff"),
+    "C18": _f(MINP, None, "get_minima_above_cutoff"),
+    "C19": _f(GP, "GaussianProcess", "refit_model", "update_bounds", "initialise_gaussian_process"),
+}
+for _p, _fs in _DEPENDS.items():
+    for _t in _fs:
+        if _t not in PROP_FUNCS[_p]:
+            PROP_FUNCS[_p].append(_t)
+
+
 def _key(rel, cls, name):
     return f"{rel}:{cls + '.' if cls else ''}{name}"
 
@@ -227,8 +259,30 @@ class _Guards(ast.NodeTransformer):
         return node
 
 
-def normal_form(fn: ast.FunctionDef) -> dict:
+# comparisons whose operator a kernel translator reads AND whose model follows the source (the theorems hold for
+# either spelling): the normal form forgets the operator.  (function key -> [(left text, right text)])
+FOLLOWED_OPERATORS = {
+    f"{MSIM}:MolecularSimilarity.optimal_alignment": [("dist", "best_dist")],     # tie-breaking, Props/C11Ties.lean
+    f"{MSIM}:MolecularSimilarity.test_exact_same": [("dist", "best_dist")],
+}
+
+
+class _Followed(ast.NodeTransformer):
+    def __init__(self, pairs):
+        self.pairs = set(pairs)
+
+    def visit_Compare(self, node):
+        self.generic_visit(node)
+        if len(node.ops) == 1 and isinstance(node.ops[0], (ast.Lt, ast.LtE)) and \
+                (ast.unparse(node.left), ast.unparse(node.comparators[0])) in self.pairs:
+            node.ops = [ast.Lt()]
+        return node
+
+
+def normal_form(fn: ast.FunctionDef, key: str = "") -> dict:
     fn = copy.deepcopy(fn)
+    if key in FOLLOWED_OPERATORS:
+        fn = _Followed(FOLLOWED_OPERATORS[key]).visit(fn)
     for a in fn.args.args + fn.args.kwonlyargs + fn.args.posonlyargs:
         a.annotation = None
     if fn.args.vararg:
@@ -253,7 +307,7 @@ def normal_form(fn: ast.FunctionDef) -> dict:
 
 
 def current(rel, cls, name) -> dict:
-    return normal_form(find_function(parse(rel), name, cls))
+    return normal_form(find_function(parse(rel), name, cls), _key(rel, cls, name))
 
 
 def check(prop: str) -> dict:
